@@ -120,11 +120,11 @@ impl Container {
         let locator = Arc::new(ChainedLocator::new(locators));
 
         let pack_info = manifest_pack.get_directory_pack_info();
-        let directory_pack = Arc::new(DirectoryPack::new(
-            locator
-                .locate(pack_info.uuid, &pack_info.pack_location)?
-                .unwrap(),
-        )?);
+        let directory_pack_reader = locator.locate(pack_info.uuid, &pack_info.pack_location)?;
+        if directory_pack_reader.is_none() {
+            return Err(format_error!("Impossible to locate the directory_pack"));
+        }
+        let directory_pack = Arc::new(DirectoryPack::new(directory_pack_reader.unwrap())?);
         let value_storage = directory_pack.create_value_storage();
         let entry_storage = directory_pack.create_entry_storage();
         let mut packs = Vec::new();
